@@ -89,4 +89,29 @@ theorem ts_client_status_tests :
 
 example : tsClientErr 422 true = .api 422 ∧ tsClientErr 400 true = .validation ∧ tsClientErr 400 false = .api 400 := by decide
 
+/-- **TS server error mapping**: for every error source and every hook configuration the emitted
+route's catch block (in the regenerated order of its branches) answers as the property asks: a
+validation failure is a 400 listing its violations BEFORE any hook is consulted. -/
+theorem ts_server_mapping (src : TsSrvSource) (hookAnswers : Bool) :
+    tsServerAnswer src hookAnswers = specTsServerAnswer src hookAnswers := by
+  cases src <;> cases hookAnswers <;> decide
+
+/-- a configured hook never sees a validation failure. -/
+theorem ts_server_hook_never_hides_violations (src : TsSrvSource) (h : src.isValidation = true) (hookAnswers : Bool) :
+    tsServerAnswer src hookAnswers = .violations400 := by
+  rw [ts_server_mapping]; simp [specTsServerAnswer, h]
+
+/-- what the two non-default branches of the catch block do, regenerated from the emitted server. -/
+theorem ts_server_catch_branches :
+    Gen.PropNames.tsServerCatchOrder = ["validation", "hook", "default"] ∧
+    Gen.PropNames.tsServerHookBranch = "return options.onError(err, req);" ∧
+    Gen.PropNames.tsServerValidationBranch =
+      "return new Response(JSON.stringify({ violations: err.violations }), { status: 400, headers: { \"Content-Type\": \"application/json\" }, });" :=
+  ⟨rfl, rfl, rfl⟩
+
+/-- were the hook consulted first, a catch-all hook would swallow every violation (the order matters). -/
+example : tsServerAnswerIn ["hook", "validation", "default"] .headerViolation true = .hookResponse := by decide
+example : tsServerAnswer .handlerError true = .hookResponse ∧ tsServerAnswer .handlerError false = .message500 ∧
+    tsServerAnswer .requestViolation true = .violations400 := by decide
+
 end Sebuf.C10
